@@ -46,3 +46,8 @@ Definition wind_down (s : st) : list action :=
   match s.(mu) with Some i => [WriteFail i] | None => [] end ++ [RStep; RClose; RDrain].
 
 Definition run_from (s : st) (h : list action) : st := fold_left step h s.
+
+(* the reader is past the point after which nothing new can be accepted: it failed, or it has
+   closed the send side on its way out, or it has exited *)
+Definition reader_gone (s : st) : Prop :=
+  reader_failed s \/ (exists r, s.(rd) = RStop2 r) \/ reader_exited s.
